@@ -55,9 +55,9 @@ var commonAssumptions = []string{
 // lemma harnesses: the engine defers clones of values whose type is still undecided and treats such a
 // clone as equal to (and, for lemCloneFresh, disjoint from) its source; every property whose harnesses
 // clone undecided values re-checks the lemma on the real code (eagerclone=1 disables the deferral).
-var lemClone = Harness{Dir: "bsonkit", Func: "H_LEM_clone", Quick: P{"eagerclone": 1, "depth": 1}, Thorough: P{"eagerclone": 1, "depth": 2, "tags": TAll | TFlatArr},
+var lemClone = Harness{Dir: "bsonkit", Func: "H_LEM_clone", Quick: P{"eagerclone": 1, "depth": 2, "tags": TNull | TInt32 | TString | TBinary | TArray | TDoc}, Thorough: P{"eagerclone": 1, "depth": 2, "tags": TAll | TFlatArr},
 	Note: "lemma: Clone/ConvertValue preserve values"}
-var lemCloneFresh = Harness{Dir: "bsonkit", Func: "H_LEM_clone_fresh", Quick: P{"eagerclone": 1, "depth": 1}, Thorough: P{"eagerclone": 1, "depth": 2, "tags": (TAll &^ TBinary) | TFlatArr},
+var lemCloneFresh = Harness{Dir: "bsonkit", Func: "H_LEM_clone_fresh", Quick: P{"eagerclone": 1, "depth": 2, "tags": TNull | TInt32 | TString | TArray | TDoc}, Thorough: P{"eagerclone": 1, "depth": 2, "tags": (TAll &^ TBinary) | TFlatArr},
 	Note: "lemma: a clone shares no mutable memory with its source (binary payloads excepted, as documented)"}
 
 var schedAssumptions = append([]string{"scheduler model (engine/sched.go): goroutines of the interpreted program are interleaved only at synchronisation operations (mutex lock, channel send/receive, select, go, goroutine end, WaitGroup.Wait); this covers all behaviours of data-race-free programs - freedom from data races on Engine/Session/Stream/Transaction fields is assumed, not checked",
@@ -118,7 +118,7 @@ var checks = []Check{
 		Property: "C18",
 		Harnesses: []Harness{
 			{Dir: ".", Func: "H_C18_upload", Quick: P{"maxlen": 5}, Thorough: P{"maxlen": 8, "maxchunk": 4, "maxbuf": 6}},
-			{Dir: ".", Func: "H_C18_download", Quick: P{"maxlen": 3, "steps": 2, "maxread": 2, "maxchunk": 2, "maxbuf": 2}, Thorough: P{"maxlen": 5, "steps": 3, "maxread": 3, "maxchunk": 3, "maxbuf": 3}},
+			{Dir: ".", Func: "H_C18_download", Quick: P{"maxlen": 3, "steps": 3, "maxread": 2, "maxchunk": 2, "maxbuf": 2}, Thorough: P{"maxlen": 5, "steps": 3, "maxread": 3, "maxchunk": 3, "maxbuf": 3}},
 		},
 		Assumptions: append([]string{"the real UploadStream/DownloadStream code runs against in-memory mock collections written in the harness (insert copies the chunk bytes as the codec would; Find returns the file's chunks sorted by n after skip); the collection layer under the bucket is C01's subject",
 			"streams are built in-package with a small upload buffer: the code uses len(s.buffer) only, so the 16 MiB constant is a parameter"}, commonAssumptions...),
@@ -129,11 +129,12 @@ var checks = []Check{
 	{
 		Property: "C16",
 		Harnesses: []Harness{
-			{Dir: ".", Func: "H_C16_protocol", Quick: P{"actors": 2, "preempt": 1, "partners": 2, "fixedclock": 1}, Thorough: P{"actors": 2, "preempt": 2, "fixedclock": 1}, Conc: true, ModelOnly: true},
+			{Dir: ".", Func: "H_C16_protocol", Quick: P{"actors": 2, "preempt": 1, "partners": 1, "fixedclock": 1}, Thorough: P{"actors": 2, "preempt": 1, "partners": 2, "fixedclock": 1}, Conc: true, ModelOnly: true},
+			{Dir: ".", Func: "H_C16_protocol", Thorough: P{"actors": 2, "preempt": 2, "partners": 1, "fixedclock": 1}, Conc: true, ModelOnly: true, Note: "pre-emption bound 2 against a plain writer"},
 			{Dir: ".", Func: "H_C05_engine", Quick: P{"fixedclock": 1}, Thorough: P{}, Note: "a failing store: error reported, state unchanged, slot released, later commits work"},
 		},
 		Assumptions: schedAssumptions,
-		Bounds: []string{"2 actors, each one of: plain write; session transaction ended by commit/abort/end-session; raw Begin + Commit with a failing store; write with a context cancelled concurrently; write transaction whose callback panics; callback returning an error; engine shutdown. Quick: every kind against a plain writer and against shutdown, pre-emption bound 1; thorough: all pairs, pre-emption bound 2",
+		Bounds: []string{"2 actors, each one of: plain write; session transaction ended by commit/abort/end-session; raw Begin + Commit with a failing store; write with a context cancelled concurrently; write transaction whose callback panics; callback returning an error; engine shutdown. Quick: every kind against a plain writer, pre-emption bound 1; thorough: every kind against a plain writer and against shutdown with bound 1, and against a plain writer with bound 2; a kind-7 actor uses one session from two goroutines (start vs end)",
 			"after all actors finished a probe write must succeed without waiting (or return the closed error after shutdown); any deadlock, escaped panic (semaphore over-release) or blocked shutdown on any schedule is a violation",
 			"outside: 3-4 actors, wall-clock promptness, goroutine leaks inside tomb/context"},
 	},
@@ -141,6 +142,7 @@ var checks = []Check{
 		Property: "C04",
 		Harnesses: []Harness{
 			{Dir: ".", Func: "H_C04_inc", Quick: P{"actors": 2, "preempt": 1, "fixedclock": 1}, Thorough: P{"actors": 2, "preempt": 2, "fixedclock": 1}, Conc: true, ModelOnly: true},
+			{Dir: ".", Func: "H_C04_shared", Quick: P{"preempt": 2, "fixedclock": 1}, Thorough: P{"preempt": 3, "fixedclock": 1}, Conc: true, ModelOnly: true, Note: "two goroutines writing through one session transaction"},
 		},
 		Assumptions: schedAssumptions,
 		Bounds: []string{"2 actors on one counter document with a symbolic initial value: single $inc update, session transaction read-then-replace(read+1), or reader; every interleaving at synchronisation granularity within the pre-emption bound",
@@ -178,6 +180,8 @@ var checks = []Check{
 			{Dir: ".", Func: "H_STEP", Quick: P{"prop": 1, "maxdocs": 1, "tags": stQuickTags, "ctags": TInt32}, Thorough: P{"prop": 1, "maxdocs": 2, "tags": stQuickTags, "ctags": TInt32}, Note: "document writes from the canonical state"},
 			{Dir: ".", Func: "H_STEP", Quick: P{"prop": 1, "maxdocs": 1, "allops": 1, "op": 7, "tags": stQuickTags, "ctags": TInt32}, Thorough: P{"prop": 1, "maxdocs": 2, "op": 7, "tags": stQuickTags, "ctags": TInt32}, Note: "index creation"},
 			{Dir: ".", Func: "H_STEP", Quick: P{"prop": 1, "maxdocs": 1, "op": 8, "tags": stQuickTags, "ctags": TInt32}, Thorough: P{"prop": 1, "maxdocs": 2, "op": 8, "tags": stQuickTags, "ctags": TInt32}, Note: "index drop"},
+			{Dir: ".", Func: "H_STEP", Quick: P{"prop": 1, "maxdocs": 1, "op": 12, "tags": TInt32 | TString, "ctags": TInt32, "partial": 0}, Thorough: P{"prop": 1, "maxdocs": 1, "op": 12, "tags": stQuickTags, "ctags": TInt32}, Note: "insert-many with individually failing items"},
+			{Dir: ".", Func: "H_STEP", Quick: P{"prop": 1, "maxdocs": 1, "op": 13, "tags": TInt32 | TString, "ctags": TInt32, "partial": 0}, Thorough: P{"prop": 1, "maxdocs": 1, "op": 13, "tags": stQuickTags, "ctags": TInt32}, Note: "bulk write with individually failing items"},
 			{Dir: ".", Func: "H_C06_roundtrip", Quick: P{"maxdocs": 1, "tags": stQuickTags, "ctags": TInt32}, Thorough: P{"maxdocs": 2, "tags": stQuickTags, "ctags": TInt32}, Note: "reload: rebuilt indexes are coherent"},
 			lemClone,
 		},
@@ -189,6 +193,7 @@ var checks = []Check{
 		Harnesses: []Harness{
 			{Dir: ".", Func: "H_STEP", Quick: P{"prop": 2, "maxdocs": 1, "tags": stQuickTags, "ctags": TInt32}, Thorough: P{"prop": 2, "maxdocs": 2, "tags": stQuickTags, "ctags": TInt32}},
 			{Dir: ".", Func: "H_STEP", Quick: P{"prop": 2, "maxdocs": 1, "op": 7, "tags": stQuickTags, "ctags": TInt32}, Thorough: P{"prop": 2, "maxdocs": 2, "op": 7, "tags": stQuickTags, "ctags": TInt32}, Note: "unique index build over existing documents"},
+			{Dir: ".", Func: "H_STEP", Quick: P{"prop": 3, "maxdocs": 1, "op": 13, "tags": TInt32 | TString, "ctags": TInt32, "partial": 0}, Thorough: P{"prop": 3, "maxdocs": 1, "op": 13, "tags": stQuickTags, "ctags": TInt32}, Note: "bulk write: a failing item leaves no half-updated index behind (coherence + uniqueness)"},
 			lemClone,
 		},
 		Assumptions: append([]string{"inductive step from the canonical state (DESIGN.md 3.4); the pre-state is assumed duplicate-free and the same predicate is asserted of every post-state"}, commonAssumptions...),
@@ -200,6 +205,8 @@ var checks = []Check{
 			{Dir: ".", Func: "H_STEP", Quick: P{"prop": 4, "maxdocs": 1, "tags": stQuickTags, "ctags": TInt32}, Thorough: P{"prop": 4, "maxdocs": 2, "tags": stQuickTags, "ctags": TInt32}},
 			{Dir: ".", Func: "H_STEP", Quick: P{"prop": 4, "maxdocs": 1, "op": 7, "tags": stQuickTags, "ctags": TInt32}, Thorough: P{"prop": 4, "maxdocs": 2, "op": 7, "tags": stQuickTags, "ctags": TInt32}, Note: "failing index creation"},
 			{Dir: ".", Func: "H_STEP", Quick: P{"prop": 4, "maxdocs": 1, "op": 8, "tags": stQuickTags, "ctags": TInt32}, Thorough: P{"prop": 4, "maxdocs": 2, "op": 8, "tags": stQuickTags, "ctags": TInt32}, Note: "failing index drop"},
+			{Dir: ".", Func: "H_STEP", Quick: P{"prop": 5, "maxdocs": 1, "op": 13, "tags": TInt32 | TString, "ctags": TInt32, "partial": 0}, Thorough: P{"prop": 5, "maxdocs": 1, "op": 13, "tags": stQuickTags, "ctags": TInt32}, Note: "bulk write: exactly the items that succeeded take effect, failing items contribute nothing (coherence of every index afterwards)"},
+			{Dir: ".", Func: "H_STEP", Quick: P{"prop": 5, "maxdocs": 1, "op": 12, "tags": TInt32 | TString, "ctags": TInt32, "partial": 0}, Thorough: P{"prop": 5, "maxdocs": 1, "op": 12, "tags": stQuickTags, "ctags": TInt32}, Note: "insert-many: failing items contribute nothing"},
 			lemClone, lemCloneFresh,
 		},
 		Assumptions: append([]string{"inductive step from the canonical state (DESIGN.md 3.4); freeze monitor: every heap slot, map and btree node reachable from the pre-call catalog is marked and any store into it is a violation"}, commonAssumptions...),
@@ -220,6 +227,8 @@ var checks = []Check{
 		Harnesses: []Harness{
 			{Dir: ".", Func: "H_STEP", Quick: P{"prop": 16, "maxdocs": 1, "tags": stQuickTags, "ctags": TInt32}, Thorough: P{"prop": 16, "maxdocs": 2, "tags": stQuickTags, "ctags": TInt32}, Note: "snapshot immutability under every document write"},
 			{Dir: ".", Func: "H_STEP", Quick: P{"prop": 16, "maxdocs": 1, "allops": 1, "tags": TInt32 | TString, "ctags": TInt32, "partial": 0}, Thorough: P{"prop": 16, "maxdocs": 2, "allops": 1, "tags": TInt32 | TString | TArray, "ctags": TInt32}, Note: "snapshot immutability under index builds/drops, namespace drops, retention and expiry"},
+			{Dir: ".", Func: "H_STEP", Quick: P{"prop": 16, "ops": 2, "maxdocs": 1, "index": 0, "tags": TInt32 | TString, "ctags": TInt32}, Thorough: P{"prop": 16, "ops": 2, "maxdocs": 2, "tags": TInt32 | TString, "ctags": TInt32}, Note: "two consecutive writes while a reader holds the first snapshot"},
+			{Dir: ".", Func: "H_C05_engine", Quick: P{"fixedclock": 1}, Thorough: P{}, Note: "a commit that cannot be persisted never becomes visible"},
 			{Dir: ".", Func: "H_C03_session", Quick: P{"fixedclock": 1}, Thorough: P{}, Note: "atomic visibility: a second client sees nothing until commit and everything after it; abort/end leave no trace; the transaction sees its own writes"},
 			lemClone, lemCloneFresh,
 		},
@@ -239,6 +248,7 @@ var checks = []Check{
 		Property: "C06",
 		Harnesses: []Harness{
 			{Dir: ".", Func: "H_C06_roundtrip", Quick: P{"maxdocs": 1, "tags": stQuickTags, "ctags": TInt32}, Thorough: P{"maxdocs": 2, "tags": stQuickTags, "ctags": TInt32}},
+			{Dir: ".", Func: "H_C06_commit", Quick: P{"maxwrites": 2}, Thorough: P{"maxwrites": 3}, Note: "what Commit persists is what it publishes, also when retention trims the change log"},
 			lemClone,
 		},
 		Assumptions: append([]string{"the mongo-driver BSON codec (bson.Marshal/Unmarshal of the File struct) is NOT encoded: value-level fidelity of the codec (int32 vs int64, NaN, -0, binary subtypes) is outside this check; the claim covers lungo's own BuildFile/BuildCatalog/index rebuild logic only"}, commonAssumptions...),
@@ -263,6 +273,7 @@ var checks = []Check{
 		Harnesses: []Harness{
 			{Dir: "mongokit", Func: "H_C11_inc", Quick: P{}, Thorough: P{}},
 			{Dir: "mongokit", Func: "H_C11_mul", Quick: P{}, Thorough: P{}},
+			{Dir: "mongokit", Func: "H_C11_each", Quick: P{}, Thorough: P{}},
 			{Dir: "mongokit", Func: "H_C11_ref", Quick: P{"ddepth": 1, "tags": TNull | TInt32 | TString | TArray}, Thorough: P{"ddepth": 1}},
 			{Dir: "mongokit", Func: "H_C11_idem", Quick: P{"ddepth": 1, "tags": TNull | TInt32 | TString | TArray | TDoc}, Thorough: P{"ddepth": 1}},
 			{Dir: "mongokit", Func: "H_C11_modified", Quick: P{"ddepth": 0, "tags": TNull | TInt32 | TDouble | TString | TArray}, Thorough: P{"ddepth": 1}},
@@ -298,7 +309,7 @@ var checks = []Check{
 			{Dir: "mongokit", Func: "H_C20_match_num", Quick: P{"op": 4, "path_n": 2}, Thorough: P{}, Note: "quick: $mod only"},
 			{Dir: "mongokit", Func: "H_C20_apply_basic", Quick: P{"path_n": 6}, Thorough: P{}},
 			{Dir: "mongokit", Func: "H_C20_apply_push", Thorough: P{}},
-			{Dir: "mongokit", Func: "H_C20_apply_spec", Quick: P{}, Thorough: P{}},
+			{Dir: "mongokit", Func: "H_C20_apply_spec", Quick: P{"both": 1, "ctags": TNull | TInt32 | TString, "tags": TNull | TInt32 | TString | TBinary | TArray | TDoc}, Thorough: P{"both": 1}},
 			{Dir: "mongokit", Func: "H_C20_apply_raw", Quick: P{}, Thorough: P{}},
 			{Dir: "mongokit", Func: "H_C20_apply_filters", Quick: P{}, Thorough: P{}},
 			{Dir: "mongokit", Func: "H_C20_project", Quick: P{}, Thorough: P{"ddepth": 2}},
